@@ -146,6 +146,18 @@ func runC01(c *engine.Ctx) {
 					meta: map[string]string{"x-amz-meta-a": "first"}})
 			}
 		}
+		// G5: header values (codings, types, dispositions, user metadata values) must come back verbatim
+		for _, hv := range [][2]string{{"Content-Encoding", "deflate"}, {"Content-Encoding", "compress"}, {"Content-Encoding", "br"}, {"Content-Encoding", "sdch"}, {"Content-Encoding", "identity"},
+			{"Content-Encoding", "gzip, deflate"}, {"Content-Type", "application/x-www-form-urlencoded"}, {"Content-Type", "a/b; x=\"y z\""}, {"Content-Type", "TEXT/Plain"},
+			{"Content-Disposition", "inline"}, {"Content-Disposition", "attachment; filename*=UTF-8''%e2%82%ac.txt"}, {"x-amz-meta-a", "  spaced  out  "}, {"x-amz-meta-a", "aws-chunked"},
+			{"x-amz-meta-a", strings.Repeat("v", 900)}, {"x-amz-meta-long-name-" + strings.Repeat("n", 60), "1"}, {"x-amz-meta-a", "ümläut"}, {"x-amz-meta-a", "a=b&c=d;e"}} {
+			for _, p := range []string{"put", "backend-api"} {
+				cases = append(cases, c01Case{kind: k, group: "header-values", path: p, key: "h/k", keyName: hv[0] + "=" + hv[1], size: 5, pattern: "mod251", integrity: "on", start: "absent",
+					meta: map[string]string{hv[0]: hv[1]}})
+			}
+		}
+		// G6: a copy that replaces metadata leaves the source's metadata alone
+		cases = append(cases, c01Case{kind: k, group: "copy-replace-meta", path: "copy-meta", key: "dst/k", keyName: "dst/k", size: 7, pattern: "mod251", integrity: "on", start: "absent"})
 		// G3
 		metaKeys := [][2]string{{"x-amz-meta-a", "v"}, {"x-amz-meta-b", ""}, {"Content-Type", "text/x-verif; charset=utf-8"}, {"Content-Encoding", "gzip"}, {"Content-Disposition", `attachment; filename="a b.txt"`}}
 		for mask := 0; mask < 32; mask++ {
@@ -193,6 +205,12 @@ func runC01(c *engine.Ctx) {
 		}
 		if cs.group == "sibling" {
 			cond = "sibling-keys"
+		}
+		if cs.group == "header-values" {
+			cond = "header=" + strings.ToLower(strings.SplitN(cs.keyName, "=", 2)[0])
+		}
+		if cs.group == "copy-replace-meta" {
+			cond = "copy-replace-meta"
 		}
 		c.Report(&engine.Violation{Sig: sig("C01", backendClass(cs.kind), cs.path, f, cond), World: string(cs.kind), History: []string{cs.String()}, Msg: cs.String() + ": " + msg})
 	})
@@ -272,6 +290,32 @@ func c01Run(c *engine.Ctx, cs c01Case) (field, msg string) {
 		if n := r.XML(); n != nil {
 			upETag = n.T("ETag")
 		}
+	case "copy-meta":
+		src := "copy-source"
+		r := w.Do(drv.Req{Method: "PUT", Path: "/aaa/" + src, Body: body, Header: drv.H("x-amz-meta-a", "src-value", "Content-Type", "text/src", "Content-Disposition", "inline")})
+		evals++
+		if r.Status != 200 {
+			return "setup", "source PUT answered " + r.Short()
+		}
+		r = w.Do(drv.Req{Method: "PUT", Path: "/aaa/" + cs.key, Header: drv.H("X-Amz-Copy-Source", "/aaa/"+src, "x-amz-meta-a", "dst-value", "Content-Type", "text/dst", "x-amz-metadata-directive", "REPLACE")})
+		evals++
+		if r.Status != 200 || r.Panic != "" {
+			return "upload-status", "copy answered " + r.Short()
+		}
+		if n := r.XML(); n != nil {
+			upETag = n.T("ETag")
+		}
+		sv := w.Get("aaa", src)
+		evals++
+		if f, m := checkObjView(sv, &model.Obj{Body: body, Meta: map[string]string{"x-amz-meta-a": "src-value", "content-type": "text/src", "content-disposition": "inline"}}, false); f != "" {
+			return "source-after-copy-" + f, "source of the copy: " + m
+		}
+		sh := w.Head("aaa", src)
+		evals++
+		if f, m := checkObjView(sh, &model.Obj{Body: body, Meta: map[string]string{"x-amz-meta-a": "src-value", "content-type": "text/src"}}, true); f != "" {
+			return "source-after-copy-head-" + f, "source of the copy: " + m
+		}
+		wantMeta = map[string]string{"x-amz-meta-a": "dst-value", "content-type": "text/dst"}
 	case "backend-api", "backend-api-nil":
 		var meta map[string]string
 		if cs.path == "backend-api" {
